@@ -175,7 +175,7 @@ class KittyImage(GraphicsImage):
     """
 
     _FORMAT_SPEC: Tuple[re.Pattern] = tuple(
-        map(re.compile, r"[LW] z-?\d+ m[01] c[0-9]".split(" "))
+        re.compile(field, re.ASCII) for field in r"[LW] z-?\d+ m[01] c[0-9]".split(" ")
     )
     _render_methods: Set[str] = {LINES, WHOLE}
     _default_render_method: str = LINES
